@@ -89,7 +89,13 @@ impl Family for C03 {
         let sel = rng.below(6);
         let rbackend = gen_rd_backend(rng, sel, rate, 600);
         let mut elems = elems;
-        if rkind == RdKind::B8 && crate::p01::CLEAN_ARGS.load(std::sync::atomic::Ordering::Relaxed) {
+        // u8 reader + decoding tables is a recorded known finding; over a zero-extended
+        // backend its garbage reads can additionally spin on the infinite zero tail
+        // (documented), so that combination is only exercised on strict backends.
+        // The configuration replay (C19) leaves the known finding out altogether.
+        if rkind == RdKind::B8
+            && (rbackend.zero_extended() || crate::p01::CLEAN_ARGS.load(std::sync::atomic::Ordering::Relaxed))
+        {
             // configuration replay (C19): leave out the recorded known finding (u8 reader +
             // decoding tables), whose wrap-around is profile dependent by nature
             for el in elems.iter_mut() {
@@ -237,6 +243,14 @@ impl Family for C03 {
         out
     }
 
+    fn scenario_tags(s: &S03) -> Vec<String> {
+        let tab = s.elems.iter().any(|el| matches!(el, Elem::Code { code, rtab, .. } if !code.rtables(*rtab).is_empty()));
+        vec![
+            format!("reader={:?}", s.rkind),
+            format!("table_read_seen={}", if tab { "yes" } else { "no" }),
+        ]
+    }
+
     fn rule() -> &'static str {
         "one case = (endianness, writer word u8..u128, writer medium {vector, WordAdapter over SimDisk with benign short-write/Interrupted faults}, reader {buffered u8..u64, unbuffered}, reader backend (6 kinds, device ones with benign read faults), bit offset 0..=2W+1, 1-14 items each = (code among unary/gamma/delta/omega/zeta_k k=1..63/pi_k,exp-Golomb_k,Rice_k k=0..63/Golomb_b,minimal-binary_u with b,u in 1..2^64/VByte BE,LE; value among small, 2^i-1,2^i,2^i+1, domain maximum, random bit length; write-side and read-side method variant incl. table options and parameterless defaults), half of them followed by a raw sentinel of random width). distinct_nontrivial = distinct (endianness, reader, writer word, code class, read variant, codeword length) signatures"
     }
@@ -254,8 +268,8 @@ impl Family for C03 {
 
     fn runs(t: Tier) -> u64 {
         match t {
-            Tier::Quick => 200_000,
-            Tier::Thorough => 20_000_000,
+            Tier::Quick => 2_000_000,
+            Tier::Thorough => 150_000_000,
         }
     }
 
